@@ -125,8 +125,8 @@ func checkC08(run *Run, res *Result) {
 			}
 		case journal.KTrack:
 			v := st[k]
-			if v == nil || !v.rolled || e.Off == nil {
-				continue
+			if v == nil || !v.rolled || e.Off == nil || stoppedM[e.M] {
+				continue // (an Ack accepted after the stream was stopped lands in emptied maps: C13's subject)
 			}
 			if e.Off.Seq < v.f.Seq {
 				res.violate("C08", "R2-position-moved-below-F", e.N, fmt.Sprintf("vb=%d", e.Vb),
